@@ -97,9 +97,22 @@ func NewTypedForwardBoltCursor(cursor *bbolt.Cursor, fieldType FieldType) ast.Se
 	}
 
 	key, _ := result.cursor.First()
-	_, result.key = GetTypeAndValue(key)
+	result.key = typedCursorElement(key)
 
 	return result
+}
+
+// typedCursorElement strips the field type tag from a key of a typed set bucket. The element may be empty (the
+// key is just the tag): that is still an element, so it is returned as an empty, non-nil slice. nil means that
+// the cursor is exhausted.
+func typedCursorElement(key []byte) []byte {
+	if key == nil {
+		return nil
+	}
+	if _, val := GetTypeAndValue(key); val != nil {
+		return val
+	}
+	return []byte{}
 }
 
 type TypedForwardBoltCursor struct {
@@ -109,13 +122,13 @@ type TypedForwardBoltCursor struct {
 
 func (f *TypedForwardBoltCursor) Next() {
 	key, _ := f.cursor.Next()
-	_, f.key = GetTypeAndValue(key)
+	f.key = typedCursorElement(key)
 }
 
 func (f *TypedForwardBoltCursor) Seek(val []byte) {
 	searchVal := PrependFieldType(f.fieldType, val)
 	key, _ := f.cursor.Seek(searchVal)
-	_, f.key = GetTypeAndValue(key)
+	f.key = typedCursorElement(key)
 }
 
 func NewTypedReverseBoltCursor(cursor *bbolt.Cursor, fieldType FieldType) ast.SeekableSetCursor {
@@ -128,7 +141,7 @@ func NewTypedReverseBoltCursor(cursor *bbolt.Cursor, fieldType FieldType) ast.Se
 	}
 
 	key, _ := result.cursor.Last()
-	_, result.key = GetTypeAndValue(key)
+	result.key = typedCursorElement(key)
 
 	return result
 }
@@ -140,7 +153,7 @@ type TypedReverseBoltCursor struct {
 
 func (f *TypedReverseBoltCursor) Next() {
 	key, _ := f.cursor.Prev()
-	_, f.key = GetTypeAndValue(key)
+	f.key = typedCursorElement(key)
 }
 
 func (f *TypedReverseBoltCursor) Seek(val []byte) {
